@@ -39,6 +39,13 @@ var cancelShapes = []cancelShape{
 	{"repeat-fail", "query", "", "repeat, fail.", true},
 	{"length-fail", "query", "", "length(_, _), fail.", true},
 	{"between-fail", "query", "", "between(1, 1000000000000, _), fail.", true},
+	// generate-and-test loops whose test is a built-in that fails at once (no user-defined predicate, no delayed alternative after
+	// the generator): every candidate must still pass through the trampoline
+	{"between-test", "query", "", "between(1, 1000000000000, X), X < 0.", true},
+	{"between-unify", "solution", "", "between(0, 1000000000000, X), X = a.", true},
+	{"not-between-type", "query", "", "\\+ (between(1, 1000000000000, X), atom(X)).", true},
+	{"length-test", "query", "", "length(_, N), N < 0.", true},
+	{"repeat-test", "query", "", "repeat, 1 > 2.", true},
 	{"rec", "query", "rec :- rec.", "rec.", true},
 	{"mutual-rec", "solution", "ping(X) :- pong(s(X)). pong(X) :- ping(X).", "ping(0).", true},
 	{"findall", "query", "", "findall(X, (repeat, X = 1, fail), _).", true},
